@@ -240,7 +240,11 @@ Call(e) ==
                     /\ (e.op = "Incr" /\ o.ok => e.r.num = o.num)
                     /\ (e.op \in {"GetAndTouchRaw", "Get", "GetRaw"} /\ o.ok => B(e.r.body) = o.rbody)
                     /\ (e.op = "GetSubDocRaw" /\ o.ok => e.r.val = o.rval)
-        matches == {o \in outs : o.any \/ (e.r.cls \in o.cls /\ retOK(o) /\ NoJson(o.doc) = NoJson(postObs))}
+        \* the expiry of a tombstone may be unreadable (GetExpiry of a tombstone may report "missing"): then it is
+        \* only observed on feed events
+        expHidden == IsTomb(postObs) /\ no[c][k].exp.cls = "missing"
+        Norm(d) == IF expHidden THEN [NoJson(d) EXCEPT !.exp = "0"] ELSE NoJson(d)
+        matches == {o \in outs : o.any \/ (e.r.cls \in o.cls /\ retOK(o) /\ Norm(o.doc) = Norm(postObs))}
         matched == matches # {}
         ch   == IF matched THEN CHOOSE o \in matches : TRUE ELSE CHOOSE o \in outs : TRUE
         wild == matched /\ ch.any
@@ -273,7 +277,7 @@ Call(e) ==
         fRev ==
             F(isPurge \/ matched
               \/ ~(\E o \in outs : ~o.any /\ e.r.cls \in o.cls /\ retOK(o)
-                       /\ [NoJson(o.doc) EXCEPT !.rev = 0] = [NoJson(postObs) EXCEPT !.rev = 0]),
+                       /\ [Norm(o.doc) EXCEPT !.rev = 0] = [Norm(postObs) EXCEPT !.rev = 0]),
               {"C17"}, <<"rev", Class(pre)>>, {o.doc.rev : o \in outs}, postObs.rev)
         \* ---- a regular mutation carries a CAS above everything issued before (C04, C01)
         fFresh ==
@@ -451,7 +455,9 @@ Reopen(e) ==
         pre == IF inf.op = "-" THEN AbsentDoc ELSE docs[c][k]
         obsOf(c2, k2) == e.post[CHOOSE i \in 1..Len(e.post) : e.post[i].c = c2 /\ e.post[i].key = k2].d
         seen(c2, k2) == DocOf(obsOf(c2, k2), docs[c2][k2].json)
-        same(c2, k2) == NoJson(seen(c2, k2)) = NoJson(docs[c2][k2])
+        hid(c2, k2) == IsTomb(seen(c2, k2)) /\ obsOf(c2, k2).exp.cls = "missing"
+        NormR(d, c2, k2) == IF hid(c2, k2) THEN [NoJson(d) EXCEPT !.exp = "0"] ELSE NoJson(d)
+        same(c2, k2) == NormR(seen(c2, k2), c2, k2) = NormR(docs[c2][k2], c2, k2)
         a0 == ArgsOf(inf.a)
         a == [a0 EXCEPT !.cas = CASE a0.casc = "zero" -> 0
                                   [] a0.casc = "cur" -> IF IsAbsent(pre) THEN 9999 ELSE pre.cas
@@ -461,7 +467,7 @@ Reopen(e) ==
         outs == IF inf.op = "-" THEN {} ELSE Outcomes(inf.op, a, pre, n)
         applied == /\ inf.op # "-"
                    /\ \A c2 \in Colls, k2 \in Keys : (c2 = c /\ k2 = k) \/ same(c2, k2)
-                   /\ \E o \in outs : o.any \/ (o.ok /\ NoJson(o.doc) = NoJson(seen(c, k)))
+                   /\ \E o \in outs : o.any \/ (o.ok /\ NormR(o.doc, c, k) = NormR(seen(c, k), c, k))
         purgeApplied == inf.op = "PurgeTombstones"
                         /\ \A c2 \in Colls, k2 \in Keys : NoJson(seen(c2, k2)) = NoJson(Purged(docs)[c2][k2])
         untouched == \A c2 \in Colls, k2 \in Keys : same(c2, k2)
